@@ -6,7 +6,10 @@ open C11
 def ErrCause (c : Cfg) (s : St) (e : ErrKind) : Prop :=
   (e = .invalid ∧ c.invalid = true ∧ (∀ i, s.phase i = .consumed) ∧ s.started = []) ∨
   (e ≠ .invalid ∧ (∀ j, s.ctx j = true) ∧
-    ((e = .cancelled ∧ s.parentCanc = true) ∨ failed c s = true ∨ (∃ i, e = .inst i ∧ c.hasTerm = true ∧ (i, Res.term) ∈ s.fin)))
+    ((e = .cancelled ∧ s.parentCanc = true) ∨
+     (failed c s = true ∧ ∃ i, s.doneErr.getLast? = some i ∧ (e = .inst i ∨ e = .cancelled)) ∨
+     (∃ i, e = .inst i ∧ c.hasTerm = true ∧ (i, Res.term) ∈ s.fin) ∨
+     (e = .cancelled ∧ c.hasTerm = true ∧ ∃ i, s.abT i = true)))
 
 structure InvB (c : Cfg) (s : St) : Prop where
   par_ctx : s.parentCanc = true → ∀ i, s.ctx i = true
@@ -23,7 +26,8 @@ theorem invB_frame {c s s'} (h : InvB c s)
     (hpar : s'.parentCanc = true → (s.parentCanc = true ∨ ∀ j, s'.ctx j = true))
     (hpar2 : s.parentCanc = true → s'.parentCanc = true)
     (hfin : ∀ p, p ∈ s.fin → p ∈ s'.fin)
-    (hinv : (∀ i, s.phase i = .consumed) → s.started = [] → (∀ i, s'.phase i = .consumed) ∧ s'.started = []) : InvB c s' := by
+    (hinv : (∀ i, s.phase i = .consumed) → s.started = [] → (∀ i, s'.phase i = .consumed) ∧ s'.started = [])
+    (hde : s'.doneErr = s.doneErr := by rfl) (habt : ∀ i, s.abT i = true → s'.abT i = true := by exact fun _ h => h) : InvB c s' := by
   obtain ⟨b1, b2, b3, b4⟩ := h
   have hs : succeeded c s' = succeeded c s := succeeded_congr c h1 h3 h4
   have hf : failed c s' = failed c s := failed_congr c h2 h4
@@ -40,10 +44,11 @@ theorem invB_frame {c s s'} (h : InvB c s)
     rcases b4 e hm with ⟨e1, e2, e3, e4⟩ | ⟨e1, e2, e3⟩
     · left; exact ⟨e1, e2, (hinv e3 e4).1, (hinv e3 e4).2⟩
     · right; refine ⟨e1, fun j => hctx j (e2 j), ?_⟩
-      rcases e3 with e3 | e3 | ⟨k, e3, e4, e5⟩
+      rcases e3 with e3 | ⟨e3, e3'⟩ | ⟨k, e3, e4, e5⟩ | ⟨e3, e4, k, e5⟩
       · exact Or.inl ⟨e3.1, hpar2 e3.2⟩
-      · exact Or.inr (Or.inl (hf.trans e3))
-      · exact Or.inr (Or.inr ⟨k, e3, e4, hfin _ e5⟩)
+      · exact Or.inr (Or.inl ⟨hf.trans e3, by rw [hde]; exact e3'⟩)
+      · exact Or.inr (Or.inr (Or.inl ⟨k, e3, e4, hfin _ e5⟩))
+      · exact Or.inr (Or.inr (Or.inr ⟨e3, e4, k, habt k e5⟩))
 
 theorem invB_finish {c s i r s'} (h : InvB c s) (hs : step c s (.finish i r) = some s') : InvB c s' := by
   simp only [step] at hs
@@ -63,13 +68,16 @@ theorem invB_begin {c s i s'} (h : InvB c s) (hs : step c s (.begin i) = some s'
     intro h1 _; have := h1 i; simp [hc.2.1] at this
   · cases hs
 
-theorem invB_abort {c s i s'} (h : InvB c s) (hs : step c s (.abort i) = some s') : InvB c s' := by
+theorem invB_abort {c s i t s'} (h : InvB c s) (hs : step c s (.abort i t) = some s') : InvB c s' := by
   simp only [step] at hs
   split at hs
   · rename_i hc
     cases hs
-    refine invB_frame h rfl rfl rfl rfl rfl rfl (fun _ h => h) (fun h => Or.inl h) (fun h => h) (fun p hp => hp) ?_
-    intro h1 _; have := h1 i; simp [hc.2.1] at this
+    refine invB_frame h rfl rfl rfl rfl rfl rfl (fun _ h => h) (fun h => Or.inl h) (fun h => h) (fun p hp => hp) ?_ rfl ?_
+    · intro h1 _; have := h1 i; simp [hc.2.1] at this
+    · intro j hj; simp only [upd_apply]; split
+      · rename_i he; subst he; simp [hj]
+      · exact hj
   · cases hs
 
 theorem invB_cancel {c s s'} (h : InvB c s) (hs : step c s .cancel = some s') : InvB c s' := by
@@ -81,7 +89,7 @@ theorem invB_tick {c s s'} (h : InvB c s) (hs : step c s .tick = some s') : InvB
   simp only [step] at hs
   split at hs
   · cases hs
-    refine invB_frame h (by simp) (by simp) (by simp) (by simp) (by simp) (by simp) (by simp) ?_ (by simp) (by simp) ?_
+    refine invB_frame h (by simp) (by simp) (by simp) (by simp) (by simp) (by simp) (by simp) ?_ (by simp) (by simp) ?_ (by simp) (by simp)
     · simp only [releaseNext_parentCanc]; exact fun h => Or.inl h
     · simp only [releaseNext_phase, releaseNext_started]; exact fun h1 h2 => ⟨h1, h2⟩
   · cases hs
@@ -140,12 +148,19 @@ theorem invB_recv {c s s'} (hA : InvA c s) (h : InvB c s) (hs : step c s .recv =
         rcases hB with ⟨h1, _⟩ | ⟨e', h1, h2, h3, h4⟩ | ⟨h1, _⟩
         · rw [h1] at hm; cases hm
         · rw [h1] at hm; cases hm
+          obtain ⟨he, h4⟩ := h4
           right; refine ⟨h2, h3, ?_⟩
-          rcases h4 with h4 | ⟨h4, h5, h6⟩
-          · exact Or.inr (Or.inl h4)
-          · refine Or.inr (Or.inr ⟨i, h6, h4, ?_⟩)
-            rw [s3]; subst h5
-            exact hA.chan_fin i .term (by rw [hch]; simp) (by decide)
+          rcases h4 with ⟨h4, h5⟩ | ⟨h4, h5 | ⟨h5, h6⟩⟩
+          · refine Or.inr (Or.inl ⟨h4, i, h5, ?_⟩)
+            rw [he]; unfold errKind; split
+            · exact Or.inr rfl
+            · exact Or.inl rfl
+          · refine Or.inr (Or.inr (Or.inl ⟨i, ?_, h4, ?_⟩))
+            · rw [he, h5]; rfl
+            · rw [s3]; subst h5
+              exact hA.chan_fin i .term (by rw [hch]; simp) (by decide)
+          · refine Or.inr (Or.inr (Or.inr ⟨?_, h4, i, h6⟩))
+            rw [he, h5]; rfl
         · rw [h1] at hm; cases hm
   · cases hs
 
@@ -163,7 +178,7 @@ theorem invB_step {c s e s'} (hA : InvA c s) (h : InvB c s) (hs : step c s e = s
   | recv => exact invB_recv hA h hs
   | ctxDone => exact invB_ctxDone h hs
   | «begin» i => exact invB_begin h hs
-  | abort i => exact invB_abort h hs
+  | abort i t => exact invB_abort h hs
   | drain => exact invB_drain h hs
   | cancelOne i => exact invB_cancelOne h hs
 
